@@ -10,7 +10,8 @@ COQ_CHUNK = 20
 RULE = ('random programs whose bodies nest ;, ->, -> without else and \\+ to depth 4 around calls with 0-3 solutions, =, \\=, true, fail and '
         'cuts in branches, followed by continuation goals; a third of the programs also put cuts inside conditions and under \\+ (local to the '
         'condition; the former finding KF-C06-1, repaired by /repo commit 64ae898). Compared as C01. Non-trivial: the program contains ;, -> or \\+ and some '
-        'query has an answer.')
+        'query has an answer. In addition ALL bodies with at most 2 (quick tier) / 3 (thorough tier) leaves over the leaf goals {no / one / two solutions, true, fail, !, =} '
+        'and the constructs are enumerated exhaustively (origin "exhaustive"), each followed by a continuation goal and a second clause.')
 TRUSTED_BASE = []
 
 def gen(rng, tier):
@@ -20,6 +21,9 @@ def gen(rng, tier):
         o = progs.Opts(open_leaves=0.5 if rng.random() < 0.2 else 0.0, control=True, cut=rng.random() < 0.5, opaque_cut=rng.random() < 0.6, builtins=False, deep=rng.random() < 0.3)
         p = progs.gen_program(rng, o)
         cases.append({'clauses': p['clauses'], 'queries': p['queries']})
+    # exhaustive small scope (support for the model-code tie, not the proof): ALL bodies with <= 2 (quick) / <= 3 (thorough)
+    # leaves over {q0,q1,q2 (0/1/2 solutions), true, fail, !, =} x {',', ';', '->', '-> ;', \\+}, followed by a continuation goal
+    cases.extend(progs.exhaustive_cases(2 if tier == 'quick' else 3))
     return cases
 
 def builtin_corpus():
@@ -63,5 +67,6 @@ def nontrivial(case, io):
 
 def distribution(cases, obs):
     d = semcheck.stats(cases, obs)
+    d['exhaustive_small_scope_bodies'] = sum(1 for c in cases if c.get('origin') == 'exhaustive')
     d['programs_with_opaque_cut'] = sum(1 for c in cases if any(progs.has_opaque_cut(b) for _, _, b in c['clauses']))
     return d
